@@ -56,3 +56,42 @@ Proof.
   intros c deck g ops Hc Hl Hcr s He. apply (pi_cur s (good_phase s (Good_reachable c deck g ops Hc Hl Hcr)) He).
 Qed.
 Print Assumptions C05_player_to_act_has_not_acted.
+
+(* the lap invariant, in every reachable state of an open betting round: every seat that has acted since the
+   wager to match last went up (or since the last all-in) has put in exactly the wager to match, has folded or
+   is all-in; and those seats form a chain that runs clockwise up to the seat to act *)
+From PF Require Import ProofsFirst ProofsLap.
+Theorem C05_lap_invariant :
+  forall c deck g ops,
+    cfg_ok c -> length deck = length (c_deck c) -> create c deck = (g, Ok) ->
+    let s := run g ops in
+    st_event (g_st s) = EvRoundStarted ->
+    (forall j, (j < nplayers s)%nat -> p_acted (get_p s j) = true ->
+       p_fold (get_p s j) = true \/ p_stack (get_p s j) = 0 \/ p_wager (get_p s j) = st_cw (g_st s)) /\
+    (forall j, (j < nplayers s)%nat -> p_acted (get_p s j) = true ->
+       p_acted (get_p s (left_of (nplayers s) j)) = true \/ left_of (nplayers s) j = st_cur (g_st s)).
+Proof.
+  intros c deck g ops Hc Hl Hcr s Ev. destruct (Lap_reachable c deck g ops Hc Hl Hcr Ev) as [L1 L2]. split; [exact L1|exact L2].
+Qed.
+Print Assumptions C05_lap_invariant.
+
+(* a betting round is never closed early: when an accepted action closes it, then only one non-folded
+   player is left, or nobody has chips, or every seat has had its turn since the wager to match last went
+   up and every non-folded seat with chips has put in exactly the wager to match — also in the closed state *)
+Theorem C05_never_closed_early :
+  forall c deck g ops who a x s',
+    cfg_ok c -> length deck = length (c_deck c) -> create c deck = (g, Ok) ->
+    step (run g ops) (OAct who a x) = (s', Ok) -> st_event (g_st s') = EvRoundClosed ->
+    exists g', s' = round_closed g' /\
+      (alive_count g' = 1%nat \/ movable_count g' = 0%nat \/
+       forall j, (j < nplayers g')%nat ->
+         p_acted (get_p g' j) = true /\
+         (p_fold (get_p s' j) = true \/ p_stack (get_p s' j) = 0 \/ p_wager (get_p s' j) = st_cw (g_st s'))).
+Proof.
+  intros c deck g ops who a x s' Hc Hl Hcr Hs Ev.
+  destruct (closed_only_when_settled (run g ops) who a x s' (Good_reachable c deck g ops Hc Hl Hcr) (Lap_reachable c deck g ops Hc Hl Hcr) Hs Ev)
+    as (g' & -> & _ & H).
+  exists g'. split; [reflexivity|]. destruct H as [H|[H|H]]; [now left|right; now left|right; right].
+  intros j Hj. destruct (H j Hj) as [A B]. split; [exact A|]. apply (matched_round_closed g' j Hj B).
+Qed.
+Print Assumptions C05_never_closed_early.
